@@ -13,7 +13,7 @@ import (
 
 type C02Scenario struct {
 	N       int    `json:"n"`
-	Order   []int  `json:"order"` // arrival order: Order[k] = index (0..n-1) of the k-th arriving frame
+	Order   []int  `json:"order"`   // arrival order: Order[k] = index (0..n-1) of the k-th arriving frame
 	Closing bool   `json:"closing"` // the highest-numbered frame is a closing frame
 	Reader  int    `json:"reader"`  // 0 read after all; 1 drain after each arrival; 2 concurrent reader task
 	Start   uint64 `json:"start"`   // first sequence number
@@ -128,6 +128,13 @@ func genC02Sampled(g *Gen) any {
 	sc.Start = []uint64{0, 1<<32 - 3, 1<<32 - uint64(n/2), ^uint64(0) - uint64(n) - 1, g.Rng.Uint64() >> 1}[g.Rng.IntN(5)]
 	for k := 0; k < n; k++ {
 		sc.Sizes = append(sc.Sizes, g.Pick(1, 2, 7, 40, 300, 1500, g.Int(1, 16000)))
+	}
+	if g.Bool(0.3) {
+		// payloads at and beyond what this build's own sender emits, up to what a
+		// receiver's connection buffer (20480 bytes a message) lets through
+		for k := g.Int(1, 3); k > 0; k-- {
+			sc.Sizes[g.Rng.IntN(n)] = g.Pick(16132, 16371, 16384, 16626, 16627, 18000, 20000, 20466)
+		}
 	}
 	sc.ReadBuf = g.Pick(1, 3, 64, 4096, 70000)
 	if g.Bool(0.35) {
